@@ -80,7 +80,7 @@ def r_dup_sanitize(ck: Checker) -> None:
     keyed = _node_keyed_mapping(fn)
     if keyed:
         ck.violation("R-DUP-SANITIZE", f, fn, "duplicate pairs every original node object with its own copy (by position or object identity)",
-                     construct=f"duplicate: {keyed}")
+                     positive=True, construct=f"duplicate: {keyed}")
         return
     if len(loops) != 1:
         raise Unsupported("duplicate is not a single loop over the child fields", fn)
@@ -176,7 +176,7 @@ def r_replace_form(ck: Checker) -> None:
             conv = [st for st in rebinds if isinstance(getattr(st, "value", None), ast.DictComp)
                     and any(isinstance(c, ast.Call) and dotted(c.func) in ("tuple", "list", "set", "frozenset", "str", "dict") for c in ast.walk(st.value.value))]
             if conv:
-                ck.violation("R-REPLACE-FORM", f, conv[0], what_k, construct=f"replace: the given values are converted before they are stored ({norm(conv[0].value.value)[:60]})")
+                ck.violation("R-REPLACE-FORM", f, conv[0], what_k, positive=True, construct=f"replace: the given values are converted before they are stored ({norm(conv[0].value.value)[:60]})")
             else:
                 raise Unsupported(f"replace: {kwname} is rebuilt or edited before it reaches dataclasses.replace", (rebinds + edits)[0])
         else:
